@@ -26,6 +26,10 @@
 (* prefixes ns0, ns1.. and xmlns attributes included - plus the set of KD_ classes the execution  *)
 (* passed through.  The algorithm does NOT satisfy ResultTree's obligations everywhere: the       *)
 (* deviating leaves are named KD_<key> below; MC_NsFixup checks that they are the only ones.      *)
+(* State of the code transcribed: /repo with the nine repairs of /verif/fixes/C14-*.patch applied  *)
+(* (shadowed prefixes, skipped declarations, xmlns / xml / undeclared prefixes, namespace="",       *)
+(* xmlns="" as literal attribute, alias on xsl:attribute, copied attributes); three deviation       *)
+(* classes remain.                                                                                 *)
 (* Not transcribed (never generated): invalid QNames, xsl:attribute after a child node, copying   *)
 (* namespace nodes selected with the namespace axis, extension namespaces, imports.               *)
 EXTENDS ResultTree
